@@ -481,6 +481,12 @@ def _build_evaluator_iterative(
                 result_stack.append(lambda x, f=operand_fn, np_f=numpy_func: np_f(f(x)))
             continue
 
+        # Flat vector/matrix nodes do not nest: the recursive builder handles them
+        # without deep recursion (and raises for genuinely unknown types)
+        if not isinstance(node, (BinaryOp, UnaryOp)):
+            result_stack.append(_build_evaluator(node, var_indices))
+            continue
+
         # Unknown type - try to evaluate directly
         raise InvalidExpressionError(
             expr_type=type(node),
